@@ -2,6 +2,7 @@ package checks
 
 import (
 	"bytes"
+	"context"
 	"errors"
 	"fmt"
 	"math/rand"
@@ -22,7 +23,7 @@ import (
 func init() { register("C20", "exploration", runC20) }
 
 func runC20(r *ev.Run) {
-	r.SetRule("the harness connector fails CreateMessage on a schedule (generic error, an error wrapping another, the size error). Histories: APPEND of new messages (simple, generated MIME trees, text parts whose transfer encoding cannot be decoded, 8-bit) into normal mailboxes and a \\Drafts mailbox with the outcomes accept / reject / reject-for-size; re-sending a rejected message while it is in the recovery mailbox and after it was moved, copied or expunged out of it; two sessions sending the same rejected message at once; APPEND / CREATE / RENAME (both directions) / DELETE aimed at the recovery mailbox; MOVE and COPY out of it, also with a remote that de-duplicates (it answers the import with a message it already has, which may or may not be in the destination already); clean restarts. Oracles after every step: OK => the message is in the target under the announced UID with its bytes; rejected (not for size) => answered NO and the recovery mailbox holds the message exactly once with its bytes; the recovery mailbox is in LIST exactly while the model says it is non-empty; commands aimed at it are refused and change nothing; moved/copied-out messages arrive with their bytes, and RFC822.SIZE equals the length of BODY[] everywhere. distinct = distinct (operation, variant, outcome) triples")
+	r.SetRule("the harness connector fails CreateMessage on a schedule (generic error, an error wrapping another, errors wrapping context.DeadlineExceeded / context.Canceled of the remote's own request, the size error). Histories: APPEND of new messages (simple, generated MIME trees, siblings of a message in the recovery mailbox that share its Subject and address fields (they are fresh messages otherwise), text parts whose transfer encoding cannot be decoded, 8-bit) into normal mailboxes and a \\Drafts mailbox with the outcomes accept / reject / reject-for-size; re-sending a rejected message while it is in the recovery mailbox and after it was moved, copied or expunged out of it; two sessions sending the same rejected message at once; APPEND / CREATE / RENAME (both directions) / DELETE aimed at the recovery mailbox; MOVE and COPY out of it, also with a remote that de-duplicates (it answers the import with a message it already has, which may or may not be in the destination already); clean restarts. Oracles after every step: OK => the message is in the target under the announced UID with its bytes; rejected (not for size) => answered NO and the recovery mailbox holds the message exactly once with its bytes; the recovery mailbox is in LIST exactly while the model says it is non-empty; commands aimed at it are refused and change nothing; moved/copied-out messages arrive with their bytes, and RFC822.SIZE equals the length of BODY[] everywhere. distinct = distinct (operation, variant, outcome) triples")
 	r.Assume("'distinct message' = distinct content (every generated message carries its own marker in Subject, Message-Id and body; duplicates are byte-identical re-sends). For rejections because of size nothing is required and the model follows what the server did.")
 
 	hist := r.Pick(120, 1500)
@@ -97,6 +98,10 @@ func (c *c20Case) install() {
 			return fmt.Errorf("remote call failed: %w", errC20Remote)
 		case "size":
 			return connector.ErrMessageSizeExceedsLimits
+		case "timeout":
+			return fmt.Errorf("remote request failed: %w", context.DeadlineExceeded)
+		case "cancelled":
+			return fmt.Errorf("remote request failed: %w", context.Canceled)
 		}
 
 		return nil
@@ -125,6 +130,36 @@ func (c *c20Case) newMessage() (string, []byte, string) {
 	c.n++
 	mk := fmt.Sprintf("%s-m%d", c.label, c.n)
 
+	// a sibling of a message that sits in the recovery mailbox: a fresh message that shares what the header
+	// contributes to a message's identity (Subject, From, To, Cc) with it
+	var siblingBase []byte
+
+	if len(c.recovery) > 0 && c.rng.Intn(4) == 0 {
+		bases := keysOf(c.recovery)
+		sort.Strings(bases)
+		siblingBase = c.lits[bases[c.rng.Intn(len(bases))]]
+	}
+
+	if siblingBase != nil {
+		g := &mimeGen{rng: c.rng, nl: "\r\n", maxDepth: 1 + c.rng.Intn(3), eightBit: c.rng.Intn(2) == 0}
+		m := g.message(0, mk)
+
+		// a multipart sibling gets one more part that names the marker, so that its parts differ from those of
+		// every other message by construction; anything else becomes a simple message (whose body names it)
+		if closing := []byte("--" + m.Boundary + "--"); m.IsMultipart() && c.rng.Intn(3) != 0 {
+			lit := m.Bytes()
+
+			if i := bytes.LastIndex(lit, closing); i >= 0 {
+				extra := fmt.Sprintf("--%s\r\nContent-Type: text/plain\r\n\r\nsibling part of %s\r\n", m.Boundary, mk)
+				lit = append(append(append([]byte{}, lit[:i]...), []byte(extra)...), lit[i:]...)
+
+				return mk, siblingOf(siblingBase, lit), "sibling-multipart"
+			}
+		}
+
+		return mk, siblingOf(siblingBase, simpleMessage(mk, c.rng)), "sibling-simple"
+	}
+
 	switch k := c.rng.Intn(10); {
 	case k < 4:
 		return mk, simpleMessage(mk, c.rng), "simple"
@@ -148,6 +183,61 @@ func (c *c20Case) newMessage() (string, []byte, string) {
 
 		return mk, []byte(lit), "odd-charset"
 	}
+}
+
+// siblingOf gives the fresh message lit the Subject and Cc fields of base (From and To have the same addresses
+// in all generated messages): gluon identifies a message by subject, addresses and the content of its leaf
+// parts, so the two share what the header contributes and differ in their parts.
+func siblingOf(base, lit []byte) []byte {
+	split := func(m []byte) (fields [][]byte, rest []byte) {
+		for len(m) > 0 {
+			i := bytes.IndexByte(m, '\n')
+			if i < 0 {
+				i = len(m) - 1
+			}
+
+			line := m[:i+1]
+
+			if len(bytes.TrimRight(line, "\r\n")) == 0 {
+				return fields, m
+			}
+
+			if (line[0] == ' ' || line[0] == '\t') && len(fields) > 0 {
+				fields[len(fields)-1] = append(fields[len(fields)-1], line...)
+			} else {
+				fields = append(fields, append([]byte{}, line...))
+			}
+
+			m = m[i+1:]
+		}
+
+		return fields, nil
+	}
+
+	isField := func(f []byte, name string) bool {
+		return len(f) > len(name) && strings.EqualFold(string(f[:len(name)]), name) && f[len(name)] == ':'
+	}
+
+	baseFields, _ := split(base)
+	fields, rest := split(lit)
+
+	var out bytes.Buffer
+
+	for _, f := range baseFields {
+		if isField(f, "Subject") || isField(f, "Cc") {
+			out.Write(f)
+		}
+	}
+
+	for _, f := range fields {
+		if !isField(f, "Subject") && !isField(f, "Cc") {
+			out.Write(f)
+		}
+	}
+
+	out.Write(rest)
+
+	return out.Bytes()
 }
 
 // observe compares the recovery mailbox, LIST and the normal mailboxes with the model.
@@ -346,7 +436,7 @@ func c20History(r *ev.Run, label string, steps int) {
 		case k < 40: // a new message
 			mk, lit, kind := c.newMessage()
 			c.lits[mk] = lit
-			mode := []string{"", "", "generic", "generic", "wrapped", "size"}[rng.Intn(6)]
+			mode := []string{"", "", "", "generic", "generic", "wrapped", "size", "timeout", "cancelled"}[rng.Intn(9)]
 			res := c.appendMsg(c.c, box, mk, mode, "new "+kind)
 			what := fmt.Sprintf("APPEND %s of a %s message", orStr(mode, "accepted"), kind)
 			r.Distinct(fmt.Sprintf("append %s %s box=%s -> %s", kind, orStr(mode, "accepted"), box, res.Status))
@@ -441,7 +531,7 @@ func c20History(r *ev.Run, label string, steps int) {
 				where = "after it left the recovery mailbox"
 			}
 
-			mode := []string{"generic", "generic", "wrapped", ""}[rng.Intn(4)]
+			mode := []string{"generic", "wrapped", "timeout", "cancelled", ""}[rng.Intn(5)]
 			res := c.appendMsg(c.c, box, mk, mode, "re-send "+where)
 			what := fmt.Sprintf("re-sending %s %s (remote: %s)", mk, where, orStr(mode, "accepts"))
 			r.Distinct(fmt.Sprintf("resend %s remote=%s -> %s", where, orStr(mode, "accepts"), res.Status))
